@@ -106,6 +106,7 @@ func l1Corpus(c *Ctx, family string, sampleEvery int) []reqCase {
 	}
 	out = append(out, reqCase{ID: "headers/many", Files: []*spec.File{corpus.ManyHeadersFile(family+".hh", family+"hh")}})
 	out = append(out, reqCase{ID: "types/many", Files: []*spec.File{corpus.ManyTypesFile(family+".mt", family+"mt")}})
+	out = append(out, reqCase{ID: "headers/case-variants", Files: []*spec.File{corpus.HeaderCaseVariantsFile(family+".hcv", family+"hcv")}})
 	out = append(out, reqCase{ID: "headers/count", Files: []*spec.File{corpus.HeaderCountFile(family+".hc", family+"hc")}})
 	out = append(out, reqCase{ID: "requests/shared", Files: []*spec.File{corpus.SharedRequestFile(family+".sr", family+"sr")}})
 	out = append(out, reqCase{ID: "same-route/two-services/one-file", Files: corpus.SameRouteServices(family+".same1", family+"same1", false)})
